@@ -465,7 +465,11 @@ pub fn long_token_case(rng: &mut Rng) -> String {
 /// placed where a digit, an identifier character or a blank is expected.
 pub fn lookalike_case(rng: &mut Rng) -> String {
     const DIGITS: [&str; 8] = ["\u{0663}", "\u{FF11}", "\u{00B2}", "\u{00BD}", "\u{2167}", "\u{0BE7}", "\u{3007}", "\u{1D7D9}"];
-    const LETTERS: [&str; 6] = ["é", "\u{FF41}", "\u{03B1}", "\u{00AA}", "\u{2118}", "\u{0300}"];
+    const LETTERS: [&str; 18] = [
+        "é", "\u{FF41}", "\u{03B1}", "\u{00AA}", "\u{2118}", "\u{0300}",
+        // first / last code points of each UTF-8 length and their neighbours
+        "\u{7F}", "\u{80}", "\u{81}", "\u{FF}", "\u{100}", "\u{7FF}", "\u{800}", "\u{D7FF}", "\u{E000}", "\u{FFFF}", "\u{10000}", "\u{10FFFF}",
+    ];
     const BLANKS: [&str; 9] = ["\u{B}", "\u{C}", "\u{85}", "\u{A0}", "\u{2028}", "\u{3000}", "\u{FEFF}", "\u{200B}", "\u{1680}"];
     let d = DIGITS[rng.below(DIGITS.len())];
     let l = LETTERS[rng.below(LETTERS.len())];
@@ -474,7 +478,9 @@ pub fn lookalike_case(rng: &mut Rng) -> String {
         "a[-{d}]", "a[{d}]", "a[-{d}1]", "a[-1{d}]", "a[1:-{d}]", "[-{d}]", "a[{d}:]", "a[::-{d}]", "a[-{d}", "-{d}", "a[- {d}]", "a[-{d}{d}]",
         "{l}", "a{l}", "{l}a", "a.{l}", "a.b{l}c", "f{l}(a)", "&{l}",
         "a{b}", "{b}a", "a{b}.b", "a .{b}b", "a{b}|{b}b", "[a,{b}b]", "a{b}", "'x'{b}", "a[{b}0]",
-    ][rng.below(28)];
+        // … after a legal blank, in front of a call, between a name and its parenthesis
+        "a {b}.b", "a\n{b}b", "[a, {b}b]", "{b}abs(a)", "abs{b}(a)", "abs({b}a)", "abs(a{b})", " {b} abs(a)", "a |\t{b}abs(b)",
+    ][rng.below(37)];
     t.replace("{d}", d).replace("{l}", l).replace("{b}", b)
 }
 
